@@ -9,9 +9,19 @@ by TLC from the spec's constants and passed in as `catalog`.
 Observation after every public call (same JSON shape as the spec's `exp`):
   logs  : [the callback/lifecycle log of this call]   (spec: set of allowed logs)
   comps : which catalog components core.hasComponent() reports
-  wired : [[sink, c]] an event raised NOW on component c's object reaches the
-          sink's _handle_<c>_Ev exactly once ([sink, c, "xN"] if N times)
+  wired : [[sink, c, pos]] an event raised NOW on component c's object reaches
+          the sink's _handle_<c>_Ev exactly once ([sink, c, "xN"] if N times);
+          pos = where, relative to two reference listeners the harness put on c
+          beforehand with priorities +5 / -5: "hi" (before both), "mid"
+          (between), "lo" (after both) - the public face of the priority the
+          sink's listener was subscribed with
   attrs : [[sink, c]] sink._<c>_ is the registered object
+
+The listen_args of a declaration (spec: args.la, entries [c, p, w]; c = "*" is
+the None key) become {name: {"priority": number, "weak": bool}} with the keys
+the entry leaves out ("-") left out; the concrete numbers of a priority class
+vary with `style`.  Action Drop: the harness forgets its only reference to the
+sink (and collects garbage); what is still delivered afterwards is observed.
 
 How the names of a declaration are handed over (spec: args.f):
   "fresh" a collection made for this call - list / tuple / set / str and, chosen
@@ -54,6 +64,12 @@ NAMES = {"a": "alpha", "b": "of_beta", "c": "Gamma9", "d": "d", "e": "e_x_y"}
 LIFE = [("GoingUp", pcore.GoingUpEvent), ("Up", pcore.UpEvent),
         ("GoingDown", pcore.GoingDownEvent), ("Down", pcore.DownEvent)]
 
+
+# priority classes (spec: "hi" / "mid" / "lo") -> concrete priorities, relative
+# to the reference listeners at +REF_PRIO and -REF_PRIO
+REF_PRIO = 5
+PRIO = {"hi": (10, 6, 1000), "mid": (0, 3, -4), "lo": (-10, -6, -1000)}
+POS = {0: "hi", 1: "mid", 2: "lo"}
 
 BUDGET = 64      # callbacks per public call; legitimate maximum is waiters + 4
 
@@ -263,6 +279,15 @@ class Adapter(object):
     self.objs = {c: flavoured(SourceComponent if c in self.sources else PlainComponent,
                               self._flavour(i))(c, self.name[c])
                  for i, c in enumerate(self.comps)}
+    # reference listeners of known priority on every event-raising component
+    self.refs_run = 0
+    for c in self.comps:
+      if c in self.sources:
+        self.objs[c].addListener(Ev, self._ref_listener, priority=REF_PRIO)
+        self.objs[c].addListener(Ev, self._ref_listener, priority=-REF_PRIO)
+    self.pos = {}
+    self.dropped = set()
+    self.la_of = {}           # sink -> the listen_args it was declared with (for signatures)
     self.log = []
     self.declared = set()
     self.sinks = {}
@@ -346,17 +371,26 @@ class Adapter(object):
         self.core.quit()
     return handler
 
+  def _ref_listener(self, event):
+    self.refs_run += 1
+
   def _probe(self):
     self.counts = {}
+    self.pos = {}
+    if self.dropped:
+      gc.collect()
     for c in self.comps:
       if c in self.sources:
+        self.refs_run = 0
         self.objs[c].raiseEvent(Ev(c))
+        if self.refs_run != 2:
+          raise Machinery("reference listeners on %s ran %d times" % (c, self.refs_run))
     wired = []
     for (s, hc, oc), n in sorted(self.counts.items()):
       if hc != oc:
         wired.append([s, hc, "from-" + oc])
       elif n == 1:
-        wired.append([s, hc])
+        wired.append([s, hc, POS[self.pos[(s, hc, oc)]]])
       else:
         wired.append([s, hc, "x%d" % n])
     return wired
@@ -522,6 +556,7 @@ class Adapter(object):
       def h(this, event, c=c):
         k = (s, c, event.origin)
         ad.counts[k] = ad.counts.get(k, 0) + 1
+        ad.pos[k] = ad.refs_run
       ns["_handle_%s_Ev" % self.name[c]] = h
 
     def met(this):
@@ -531,8 +566,28 @@ class Adapter(object):
     ns.update(_flavour_ns(self._flavour(sorted(self.kind).index(s) + 1)))
     return type("Sink_" + s, (object,), ns)()
 
-  def _listen(self, s, expl, form="fresh"):
+  def _listen_args(self, s, la):
+    """spec listen_args (entries [c, p, w]) -> the dict handed to core (a new one
+    for every declaration, nested dicts not shared)"""
+    out = {}
+    si = sorted(self.kind).index(s)
+    for i, e in enumerate(sorted(la, key=lambda e: e["c"])):
+      d = {}
+      if e["p"] != "-":
+        d["priority"] = PRIO[e["p"]][(self.style + si + i) % 3]
+      if e["w"] != "-":
+        d["weak"] = e["w"] == "y"
+      out[None if e["c"] == "*" else self.name[e["c"]]] = d
+    return out
+
+  def _drop(self, s):
+    """the caller forgets the sink: the harness holds no other reference to it"""
+    self.sinks.pop(s)
+    self.dropped.add(s)
+
+  def _listen(self, s, expl, form="fresh", la=()):
     self.declared.add(s)
+    self.la_of[s] = la
     sink = self._make_sink(s)
     short = (self.style // 2) % 2 == 1
     self.sinks[s] = (sink, short)
@@ -548,7 +603,10 @@ class Adapter(object):
     if short:
       kw["short_attrs"] = True
       kw["attrs"] = False
+    if la or (self.style // 3) % 2:
+      kw["listen_args"] = self._listen_args(s, la)
     self.core.listen_to_dependencies(sink, **kw)
+    del sink
 
   # ---- GoingUp handlers
   def _going_up_handler(self, i, prog):
@@ -569,7 +627,9 @@ class Adapter(object):
     elif a == "CallWhenReady":
       self._call_when_ready(args["w"], args["deps"], args.get("f", "fresh"))
     elif a == "ListenTo":
-      self._listen(args["w"], args["deps"], args.get("f", "fresh"))
+      self._listen(args["w"], args["deps"], args.get("f", "fresh"), args.get("la") or ())
+    elif a == "Drop":
+      self._drop(args["w"])
     elif a == "Mutate":
       self._mutate(args["f"], args["o"], args["c"])
     elif a == "GoUp":
@@ -684,6 +744,8 @@ class Adapter(object):
       sig["observed"] = "malformed"
       return sig
     sig["fields"] = sorted(k for k in exp if k != "alt" and obs.get(k) != exp[k])
+    if "wired" in sig["fields"]:
+      sig.update(wiring_diff(exp["wired"], obs.get("wired") or [], self.la_of, self.dropped))
     olog = obs["logs"][0] if len(obs["logs"]) == 1 else []
     elogs = exp.get("logs", [[]])
     ofire = sorted(e["n"] for e in olog if e["k"] == "fire")
@@ -697,6 +759,31 @@ class Adapter(object):
     sig["observed_life"] = [e["n"] for e in olog if e["k"] == "life"]
     sig["expected_life"] = [e["n"] for e in elogs[0] if e["k"] == "life"]
     return sig
+
+
+def la_class(la):
+  """what kind of listen_args: which options are given, for one component / all"""
+  if not la:
+    return "none"
+  out = set()
+  for e in la:
+    who = "all" if e["c"] == "*" else "one"
+    if e["p"] != "-":
+      out.add(who + ":priority")
+    if e["w"] != "-":
+      out.add(who + ":weak")
+  return "+".join(sorted(out))
+
+
+def wiring_diff(ewired, owired, la_of, dropped):
+  """classify a difference in the listener wiring: per (sink, component) what the
+  spec expects -> what was observed ("-" = not delivered)"""
+  e = {(x[0], x[1]): (x[2] if len(x) > 2 else "?") for x in ewired}
+  o = {(x[0], x[1]): (x[2] if len(x) > 2 else "?") for x in owired}
+  diff = sorted(set("%s->%s" % (e.get(k, "-"), o.get(k, "-")) for k in set(e) | set(o) if e.get(k) != o.get(k)))
+  sinks = sorted(set(k[0] for k in set(e) | set(o) if e.get(k) != o.get(k)))
+  return {"wiring": diff, "listen_args": sorted(set(la_class(la_of.get(s, ())) for s in sinks)),
+          "sink_dropped": any(s in dropped for s in sinks)}
 
 
 def _match(obs, exp):
@@ -747,6 +834,8 @@ def canon_behaviour(beh):
     args = st.get("args") or {}
     if "deps" in args:
       args["deps"] = sorted(args["deps"])
+    if "la" in args:
+      args["la"] = sorted(args["la"], key=lambda e: e["c"])
     for prog in list(args.get("hs", ())) + [args.get("up", ())]:
       for op in prog:
         op["d"] = sorted(op["d"])
@@ -771,4 +860,5 @@ def canon_catalog(cat):
   cat["cr"] = dict(cat["cr"], p=[dict(op, d=sorted(op["d"])) for op in cat["cr"]["p"]])
   cat["forms"] = sorted(cat.get("forms", ["fresh"]))
   cat["colls"] = sorted(cat.get("colls", []))
+  cat["drop"] = bool(cat.get("drop", False))
   return cat
